@@ -280,6 +280,9 @@ def twins(ctx):
                 spec.set_custom_mode(p0, part, mode)
         if i % 2:
             spec.gen_reply_table(rng, p0, n_names=rng.choice([2, 3]))
+        elif i % 4 == 0:
+            # a name two interfaces / the contract accept through aliases: refused in every order, never routed by position
+            spec.add_shared_alias(rng, p0)
         orders = [{}]
         rev = {part["id"]: list(reversed(range(len(part["handlers"])))) for part in p0["parts"]}
         rev["messages"] = list(reversed(range(len(p0["parts"]) - 1)))
